@@ -271,7 +271,7 @@ func (g *mixGen) killOp(t *rapid.T) Op {
 		op.URI = "wamp.session.kill_all"
 	}
 	if pct(t, 40, "reason") {
-		op.Kw = append(op.Kw, KV{"reason", VStr(pick(t, []string{"app.kicked", "wamp.close.normal", "bad reason uri", ""}, "reasonv"))})
+		op.Kw = append(op.Kw, KV{"reason", VStr(pick(t, []string{"app.kicked", "wamp.close.normal", "bad reason uri", "", "wamp.close.system_shutdown", "wamp.close.goodbye_and_out", "wamp.close.close_realm", "wamp.error.protocol_violation"}, "reasonv"))})
 	}
 	if pct(t, 30, "message") {
 		op.Kw = append(op.Kw, KV{"message", VStr("bye")})
